@@ -64,7 +64,11 @@ async fn c14_async(ctx: &mut Ctx) {
     if !advertise {
         ctx.count("runs_with_unadvertised_local_socket");
     }
-    let mut sw = match SWorld::new(0, advertise, v4_listen(), |b| {
+    // a quarter of the nodes listen dual-stack (the observed source of a request, IPv4-mapped or not, is what the
+    // answer is addressed to and what a PONG reports)
+    let dual14 = ctx.tape.choose(4) == 0;
+    let listen = if dual14 { ListenConfig::DualStack { ipv4: Ipv4Addr::new(10, 1, 0, 250), ipv4_port: 9000, ipv6: std::net::Ipv6Addr::new(0x2001, 0, 0, 0, 0, 0, 0, 0xfa), ipv6_port: 9000 } } else { v4_listen() };
+    let mut sw = match SWorld::new(0, advertise, listen, |b| {
         b.max_nodes_response(max_nodes).disable_enr_update();
     })
     .await
@@ -518,40 +522,33 @@ async fn c17_async(ctx: &mut Ctx) {
             for a in changed {
                 changes_to_some += 1;
                 let now = now_ms();
-                let live: Vec<&(SocketAddr, u64)> = votes.values().filter(|(_, tv)| tv + vote_s * 1000 > now).collect();
-                let inc: BTreeSet<usize> = incoming_pongs.iter().filter(|(_, x, tv)| *x == a && tv + vote_s * 1000 > now).map(|(p, _, _)| *p).collect();
-                let c1 = live.iter().filter(|(x, _)| *x == a).count() + inc.len();
-                let mut rival = 0;
+                // The tally is compared within bounds. Expiry: the service took its decision when the PONG was processed,
+                // a moment before this check reads the clock, so a vote within `slack` of its expiry may or may not have
+                // counted. Dual stack: which PONGs of incoming (or just re-connected) peers count depends on how many
+                // votes were missing at the time (possible votes). The winner has at most its certain plus its possible
+                // votes that had not clearly expired; a rival at least its certain votes that were clearly alive. The
+                // minimum and the margin must hold even then.
+                let slack = 100;
+                if if a.is_ipv6() { revoked.1 } else { revoked.0 } {
+                    continue;
+                }
+                let mut backers: BTreeSet<usize> = votes.iter().filter(|((_, _), (x, tv))| *x == a && tv + vote_s * 1000 + slack > now).map(|((p, _), _)| *p).collect();
+                backers.extend(incoming_pongs.iter().filter(|(_, x, tv)| *x == a && tv + vote_s * 1000 + slack > now).map(|(p, _, _)| *p));
+                let c1_ub = backers.len();
+                let mut rival_lb = 0;
                 for c in &cands {
                     if *c != a && c.is_ipv4() == a.is_ipv4() {
-                        rival = rival.max(live.iter().filter(|(x, _)| x == c).count());
+                        rival_lb = rival_lb.max(votes.values().filter(|(x, tv)| x == c && tv + vote_s * 1000 > now + slack).count());
                     }
                 }
-                let threshold = ((c1 as f64) * 0.7).round() as usize;
-                if c1 < min {
-                    ctx.fail("c17.moved-by-fewer-than-minimum", format!("address set to {a} backed by {c1} unexpired votes of eligible peers, minimum {min}"), &[]);
-                } else if rival >= threshold && !dual {
-                    ctx.fail("c17.no-clear-majority", format!("address set to {a} with {c1} votes while a rival has {rival} (needs < {threshold})"), &[]);
-                } else if dual && !(if a.is_ipv6() { revoked.1 } else { revoked.0 }) {
-                    // dual stack: which PONGs of incoming (or just re-connected) peers count depends on how many votes
-                    // were missing at the time, so the tally is known only within bounds: the winner has at most its
-                    // certain plus its possible votes, a rival at least its certain ones (votes of connected outgoing
-                    // peers, always counted). The margin must hold even then.
-                    let slack = 100;
-                    let mut backers: BTreeSet<usize> = votes.iter().filter(|((_, _), (x, tv))| *x == a && tv + vote_s * 1000 + slack > now).map(|((p, _), _)| *p).collect();
-                    backers.extend(incoming_pongs.iter().filter(|(_, x, tv)| *x == a && tv + vote_s * 1000 + slack > now).map(|(p, _, _)| *p));
-                    let c1_ub = backers.len();
-                    let mut rival_lb = 0;
-                    for c in &cands {
-                        if *c != a && c.is_ipv4() == a.is_ipv4() {
-                            rival_lb = rival_lb.max(votes.values().filter(|(x, tv)| x == c && tv + vote_s * 1000 > now + slack).count());
-                        }
-                    }
-                    let thr = ((c1_ub as f64) * 0.7).round() as usize;
+                let thr = ((c1_ub as f64) * 0.7).round() as usize;
+                if dual {
                     ctx.count("dual_stack_margin_checked");
-                    if rival_lb >= thr {
-                        ctx.fail("c17.no-clear-majority", format!("address set to {a} backed by at most {c1_ub} unexpired votes while a rival address holds at least {rival_lb} unexpired votes of connected outgoing peers (needs < {thr})"), &[]);
-                    }
+                }
+                if c1_ub < min {
+                    ctx.fail("c17.moved-by-fewer-than-minimum", format!("address set to {a} backed by at most {c1_ub} unexpired votes of eligible peers, minimum {min}"), &[]);
+                } else if rival_lb >= thr {
+                    ctx.fail("c17.no-clear-majority", format!("address set to {a} backed by at most {c1_ub} unexpired votes while a rival address holds at least {rival_lb} unexpired votes of connected outgoing peers (needs < {thr})"), &[]);
                 }
             }
             last_sock = sock;
@@ -664,7 +661,15 @@ async fn c20_async(ctx: &mut Ctx) {
             shut = true;
         }
         let requester = 8 + (k as usize % 5);
-        let na = node_address(requester);
+        let mut na = node_address(requester);
+        // dual-stack runs: a socket that carries both families reports an IPv4 sender with its IPv4-mapped IPv6
+        // address; that (and nothing canonicalised from it) is the address the request came from
+        if dual && requester % 2 == 0 {
+            if let SocketAddr::V4(a) = na.socket_addr {
+                na.socket_addr = SocketAddr::new(IpAddr::V6(a.ip().to_ipv6_mapped()), a.port());
+                ctx.count("talk_requests_from_mapped_source");
+            }
+        }
         let rid = RequestId(vec![(k >> 8) as u8, k as u8, 0x7a]);
         if !shut {
             sw.emit(HandlerOut::Request(na.clone(), Box::new(Request { id: rid.clone(), body: RequestBody::Talk { protocol: b"t".to_vec(), request: vec![k as u8; 3] } }))).await;
